@@ -848,8 +848,8 @@ M('lobpcg-status-not-reset-at-entry', 'C17', 'success-only-after-fresh-residual-
   [('contrib/LOBPCGSolver.h', "        m_info = Eigen::NoConvergence;\r\n\r\n        Scalar tolerance_L2", "        Scalar tolerance_L2")],
   'reverts fix F13: a failed call keeps the Success of an earlier call')
 N('lobpcg-status-reset-then-else-branch', 'C17',
-  [('contrib/LOBPCGSolver.h', "        if (BlockSize == 0)\r\n        {\r\n            m_info = Eigen::Success;\r\n        }\r\n    }  // compute",
-    "        if (BlockSize == 0)\r\n        {\r\n            m_info = Eigen::Success;\r\n        }\r\n        else if (m_info == Eigen::Success)\r\n        {\r\n            m_info = Eigen::NoConvergence;\r\n        }\r\n    }  // compute")],
+  [('contrib/LOBPCGSolver.h', "            m_info = Eigen::Success;\r\n        }\r\n    }  // compute",
+    "            m_info = Eigen::Success;\r\n        }\r\n        else if (m_info == Eigen::Success)\r\n        {\r\n            m_info = Eigen::NoConvergence;\r\n        }\r\n    }  // compute")],
   'redundant second reset: same status on every path')
 
 # ----------------------------------------------------------------------------- BKLDLT::solve_inplace: block structure of m_perm (C13-D15)
@@ -1062,6 +1062,21 @@ N('davidson-extension-full-pivoting', 'C15',
    ('LinAlg/SearchSpace.h', "qr.householderQ() * Matrix::Identity(W.rows(), rank);", "qr.matrixQ().leftCols(rank);")], 'another rank-revealing factorization')
 N('davidson-correction-count-from-ritz-values', 'C15',
   [('DavidsonSymEigsSolver.h', "Index(residues.cols()));", "Index(eigvals.size()));")], 'same count from the other array')
+
+# ----------------------------------------------------------------------------- F38 / F39 (LOBPCG; the file has CRLF line ends)
+M('lobpcg-gram-factor-default-ordering', 'C17', 'sparse-factors-used-with-their-ordering',
+  [('contrib/LOBPCGSolver.h', "Eigen::SimplicialLDLT<SparseMatrix, Eigen::Lower, Eigen::NaturalOrdering<int>> chol_MBM(", "Eigen::SimplicialLDLT<SparseMatrix> chol_MBM(")], 'reverts fix F38')
+N('lobpcg-gram-factor-llt-natural', 'C17',
+  [('contrib/LOBPCGSolver.h', "Eigen::SimplicialLDLT<SparseMatrix, Eigen::Lower, Eigen::NaturalOrdering<int>> chol_MBM(", "Eigen::SimplicialLDLT<SparseMatrix, Eigen::Upper, Eigen::NaturalOrdering<int>> chol_MBM(")], 'the other triangle, still the natural ordering')
+M('lobpcg-verdict-on-residuals-alone', 'C17', 'success-requires-a-b-orthonormal-iterate',
+  [('contrib/LOBPCGSolver.h', "if (BlockSize == 0 && iterate_is_B_orthonormal(X, BX))", "if (BlockSize == 0)")], 'reverts fix F39')
+M('lobpcg-orthonormality-test-of-the-wrong-block', 'C17', 'success-requires-a-b-orthonormal-iterate',
+  [('contrib/LOBPCGSolver.h', "if (BlockSize == 0 && iterate_is_B_orthonormal(X, BX))", "if (BlockSize == 0 && iterate_is_B_orthonormal(m_residuals, BR))")], 'the residual block is orthonormal by construction: says nothing about X')
+M('lobpcg-success-inside-the-loop-again', 'C17', 'success-requires-a-b-orthonormal-iterate',
+  [('contrib/LOBPCGSolver.h', "                // The verdict is given after the loop\r\n                break;", "                m_info = Eigen::Success;\r\n                break;"),
+   ('contrib/LOBPCGSolver.h', "if (BlockSize == 0 && iterate_is_B_orthonormal(X, BX))", "if (BlockSize != 0 || !iterate_is_B_orthonormal(X, BX))"),
+   ('contrib/LOBPCGSolver.h', "            m_info = Eigen::Success;\r\n        }\r\n    }  // compute", "            m_info = Eigen::NoConvergence;\r\n        }\r\n    }  // compute")],
+  'Success inside the loop, withdrawn afterwards when the tests fail: equivalent outcome, but written so that the assignment itself is unguarded by the orthonormality test')
 
 # ----------------------------------------------------------------------------- F36 / F37 / K4
 M('complexshift-roots-divide-by-nu', 'C13,C02', 'back-transformation-defined-for-a-zero-ritz-value',
